@@ -202,6 +202,21 @@ def main(argv=None):
                                         f"    model : {json.dumps(x.get('witness_pred'))[:600]}")
                 if x.get("witness_real_holds") is False and x["witness_conforms"] and v == "proved" and not x.get("witness_in_region"):
                     model_errors.append(f"{h.name}: concrete spec fails on a witness although model and real build agree and the path was proved {x['choices']} {x.get('witness_real_failing')}")
+            for pr in x.get("probes", []):
+                tot["probes"] = tot.get("probes", 0) + 1
+                if pr["holds"]: continue
+                if pr.get("in_region"):
+                    tot["probes_in_known_region"] = tot.get("probes_in_known_region", 0) + 1
+                    for reg in pr["in_region"]:
+                        known_seen.setdefault(reg, {"region": pr["in_region"], "cex": pr["inputs"], "failing": pr["failing"], "reproduced": True})
+                    continue
+                # the real build violates the property on a probe input: reproduced by construction
+                tot["sat_reproduced"] += 1
+                hstat["violations"] += 1
+                import re as _re
+                k = (h.name.rsplit(".n", 1)[0], _re.sub(r"\d+", "#", (pr.get("failing") or ["?"])[0])[:100])
+                if k not in violations:
+                    violations[k] = dict(h=h, res=dict(x, cex=pr["inputs"], cex_real_failing=pr.get("failing"), cex_real_out=pr.get("out")))
             if v == "violation":
                 tot["sat"] += 1
                 if x.get("cex_reproduced"):
@@ -268,6 +283,7 @@ def main(argv=None):
                        "sat": tot["sat"], "sat_reproduced": tot["sat_reproduced"], "sat_not_reproduced": tot["sat_not_reproduced"],
                        "known_region_hits": tot["known_hits"], "unknown": tot["unknown"], "queries": tot["queries"],
                        "solver_s": round(tot["solver_s"], 2), "witnesses_replayed": tot["witnesses"],
+                       "probe_inputs_observed_on_real_build": tot.get("probes", 0), "probe_failures_in_known_regions": tot.get("probes_in_known_region", 0),
                        "witnesses_not_comparable_uninterpreted_reducer": tot.get("witnesses_unvalidated", 0),
                        "functions_encoded": funcs, "harnesses": per_h, "cross_solver": xres,
                        "exhaustive": not inconclusive and not model_errors,
